@@ -276,7 +276,7 @@ func (g *rgen) fill(t reflect.Type, depth int) (reflect.Value, string) {
 			return v, "rmap( )" // nil map
 		}
 		v = reflect.MakeMap(t)
-		n := rng.Intn(3)
+		n := rng.Intn(4)
 		ds := []string{}
 		seen := map[string]bool{}
 		for i := 0; i < n; i++ {
@@ -295,9 +295,21 @@ func (g *rgen) fill(t reflect.Type, depth int) (reflect.Value, string) {
 				kb := make([]byte, k.Len())
 				kb[0] = byte(i)
 				kd = "barr:" + hexOrDash(string(kb))
-			default: // any
-				k.Set(reflect.ValueOf(int64(i)))
-				kd = "I" + strconv.Itoa(i)
+			default: // any: keys of different dynamic kinds in one map
+				switch (i + rng.Intn(2)) % 4 {
+				case 0:
+					k.Set(reflect.ValueOf(int64(i)))
+					kd = "I" + strconv.Itoa(i)
+				case 1:
+					k.Set(reflect.ValueOf("k" + strconv.Itoa(i)))
+					kd = "S" + hexOrDash("k"+strconv.Itoa(i))
+				case 2:
+					k.Set(reflect.ValueOf(float64(i) + 0.5))
+					kd = "D" + f64hex(float64(i)+0.5)
+				default:
+					k.Set(reflect.ValueOf(uint16(i + 7)))
+					kd = "U" + strconv.Itoa(i+7)
+				}
 			}
 			if seen[kd] {
 				continue
